@@ -32,6 +32,22 @@ func IsClass(name string) bool {
 }
 
 // Pool returns the input pool (simplest first within each part).
+// LineBreakSeeds: grouped declarations, field and method lists, literals and calls whose members carry
+// trailing comments and bracket pairs, in canonical layout.
+var LineBreakSeeds = []string{
+	"var (\n\ta = 1 // one\n\tbbbbbbbb = []int{} // two\n\tc = 3 // three\n)\n",
+	"const (\n\ta = 1\n\tbbbbbbbb = (2)\n\tc = 3\n)\n",
+	"var (\n\ta = f()\n\tbbbb = g(1, 2)\n\tc, d = []int{1, 2}, 3\n)\n",
+	"type T struct {\n\ta int // c1\n\tbbbbbbbb func() // c2\n\tc int // c3\n}\n",
+	"type T struct {\n\ta int\n\tbbbb struct{ x, y int }\n\tc map[string][]int\n}\n",
+	"type I interface {\n\tA() // c1\n\tBbbbbbbbbb() // c2\n\tC(x int) (y int) // c3\n}\n",
+	"type (\n\tA int // c1\n\tBbbbbbbb [4]int // c2\n\tC = A // c3\n)\n",
+	"import (\n\t\"a\"\n\tb \"b/c\" // d\n)\n",
+	"func f(a int, b ...string) (c int, err error) {\n\treturn g(a, h(b...), []int{1, 2}), nil\n}\n",
+	"x := []int{1, 2, 3}\nm := {\"a\": 1, \"b\": [2, 3]}\nf a, g(b), c\n",
+	"var (\n\ta int\n\tb, c string\n)\n\nfunc m() {\n\techo a, b\n}\n",
+}
+
 func Pool(thorough bool) []Src {
 	var p []Src
 	for _, s := range corpus.HandSeeds {
@@ -66,6 +82,24 @@ func Pool(thorough bool) []Src {
 		}
 		if c := compact(src); c != src {
 			p = append(p, Src{"a.xgo", c})
+		}
+	}
+	// line-break variants: members of declaration groups, field lists and argument lists written over more or
+	// fewer lines than the printer lays them out. For every seed a line break is inserted at every token boundary
+	// and at every pair of boundaries (variants that no longer parse fall outside the premise).
+	for _, src := range LineBreakSeeds {
+		bs := Boundaries(src)
+		var in []int
+		for _, b := range bs {
+			if b > 0 && b < len(src) {
+				in = append(in, b)
+			}
+		}
+		for i, b := range in {
+			p = append(p, Src{"a.xgo", src[:b] + "\n" + src[b:]})
+			for _, b2 := range in[i+1:] {
+				p = append(p, Src{"a.xgo", src[:b] + "\n" + src[b:b2] + "\n" + src[b2:]})
+			}
 		}
 	}
 	step := 3
@@ -343,7 +377,6 @@ func Boundaries(src string) []int {
 	out = append(out, len(src))
 	return out
 }
-
 
 // compact removes the blanks between tokens wherever the scanner still yields the same tokens.
 func compact(src string) string {
